@@ -13,6 +13,7 @@ Ok(c) == c.out.cls = "ok"
 RegTabOf(prog, ovr) == RegTab(prog, Env(prog, ovr))
 ValidRegs(prog, ovr) == LET t == RegTabOf(prog, ovr) IN \A r \in DOMAIN t : t[r].ok
 ValidIn(prog, ovr) == ValidRegs(prog, ovr) /\ ~HasBad(Meaning(prog, ovr)) /\ TypeOK(prog, ovr)
+                      /\ ~SubNestBad(Meaning(prog, ovr), FALSE)
 
 MacroMeaning(prog, ovr, j) ==
   LET env == Env(prog, ovr) IN
